@@ -255,6 +255,20 @@ func fieldByName(v reflect.Value, name string) reflect.Value {
 	return f
 }
 
+// argumentFits checks whether pv can be passed for a function parameter of type fnArg:
+// its type must be the parameter's type or, for an interface parameter, implement it.
+func argumentFits(pv *Value, fnArg reflect.Type) bool {
+	argType := reflect.TypeOf(pv.Interface())
+	if argType == fnArg {
+		return true
+	}
+	if fnArg.Kind() != reflect.Interface {
+		return false
+	}
+	// nil is passed as a nil interface value
+	return argType == nil || argType.AssignableTo(fnArg)
+}
+
 func (vr *variableResolver) resolve(ctx *ExecutionContext) (*Value, error) {
 	var current reflect.Value
 	var isSafe bool
@@ -475,12 +489,12 @@ func (vr *variableResolver) resolve(ctx *ExecutionContext) (*Value, error) {
 				if fnArg != typeOfValuePtr {
 					// Function's argument is not a *pongo2.Value, then we have to check whether input argument is of the same type as the function's argument
 					if !isVariadic {
-						if fnArg != reflect.TypeOf(pv.Interface()) && fnArg.Kind() != reflect.Interface {
+						if !argumentFits(pv, fnArg) {
 							return nil, fmt.Errorf("function input argument %d of '%s' must be of type %s or *pongo2.Value (not %T)",
 								idx, vr.String(), fnArg.String(), pv.Interface())
 						}
 					} else {
-						if fnArg != reflect.TypeOf(pv.Interface()) && fnArg.Kind() != reflect.Interface {
+						if !argumentFits(pv, fnArg) {
 							return nil, fmt.Errorf("function variadic input argument of '%s' must be of type %s or *pongo2.Value (not %T)",
 								vr.String(), fnArg.String(), pv.Interface())
 						}
